@@ -24,6 +24,7 @@ type Gate interface {
 
 type gateImpl struct {
 	count         uint16
+	initialCount  uint16
 	arrived       uint16
 	gateCondition *sync.Cond
 	canceled      bool
@@ -121,12 +122,15 @@ func (g *gateImpl) Clear() {
 	g.canceled = false
 	g.arrived = 0
 	g.err = nil
+	// a cleared gate expects what a new one expects, not the count of the previous generation
+	g.count = g.initialCount
 }
 
 // NewGate returns new gate instance.
 func NewGate(count uint16) Gate {
 	return &gateImpl{
 		count:         count,
+		initialCount:  count,
 		gateCondition: sync.NewCond(&sync.Mutex{}),
 	}
 }
